@@ -92,8 +92,37 @@ func (f *vhold) Call(s *slip.Scope, args slip.List, depth int) slip.Object {
 	return nil
 }
 
+// vchain reports, for the scope it is evaluated in and every scope a variable lookup reaches from there (the
+// recursive walk over Scope.Parents(), in that order), whether the scope is synchronized: "1" or "0" per scope.
+type vchain struct{ slip.Function }
+
+func (f *vchain) Call(s *slip.Scope, args slip.List, depth int) slip.Object {
+	var b []byte
+	var walk func(sc *slip.Scope)
+	walk = func(sc *slip.Scope) {
+		if sc.Synchronized() {
+			b = append(b, '1')
+		} else {
+			b = append(b, '0')
+		}
+		for _, p := range sc.Parents() {
+			walk(p)
+		}
+	}
+	walk(s)
+	return slip.String(b)
+}
+
 func defineBuiltins() {
 	defer func() { _ = recover() }()
+	slip.Define(
+		func(args slip.List) slip.Object {
+			f := vchain{Function: slip.Function{Name: "vchain", Args: args}}
+			f.Self = &f
+			return &f
+		},
+		&slip.FuncDoc{Name: "vchain", Args: []*slip.DocArg{}, Return: "string", Text: "verification: the synchronized flags of the scope chain"},
+		&slip.UserPkg)
 	slip.Define(
 		func(args slip.List) slip.Object {
 			f := vhold{Function: slip.Function{Name: "vhold", Args: args}}
